@@ -250,12 +250,16 @@ func init() {
 						continue
 					}
 					for _, withData := range []bool{false, true} {
-						var w bytes.Buffer
-						err := pol.SanitizeReaderToWriter(&failingReader{data: in, failAt: off, withData: withData}, &w)
-						rb := pol.SanitizeReader(&failingReader{data: in, failAt: off, withData: withData})
-						fmt.Fprintf(c.w, "rfault %d %s %d %s %s %s %d\n", pid, bmx.HexField(in), off, b01(withData), b01(err != nil),
-							bmx.HexField(w.Bytes()), rb.Len())
-						i++
+						// every kind of non-EOF failure a real source produces: a plain error, a short body,
+						// errors that wrap io.EOF / io.ErrUnexpectedEOF (only io.EOF itself is a clean end)
+						for _, ferr := range []error{errInjected, io.ErrUnexpectedEOF, fmt.Errorf("read body: %w", io.EOF), fmt.Errorf("gzip: %w", io.ErrUnexpectedEOF)} {
+							var w bytes.Buffer
+							err := pol.SanitizeReaderToWriter(&failingReader{data: in, failAt: off, withData: withData, err: ferr}, &w)
+							rb := pol.SanitizeReader(&failingReader{data: in, failAt: off, withData: withData, err: ferr})
+							fmt.Fprintf(c.w, "rfault %d %s %d %s %s %s %d\n", pid, bmx.HexField(in), off, b01(withData), b01(err != nil),
+								bmx.HexField(w.Bytes()), rb.Len())
+							i++
+						}
 					}
 				}
 			}
@@ -333,9 +337,26 @@ func init() {
 			{Kind: "RW", Cb: "sethost=cdn.example"}, {Kind: "DA"}, {Kind: "NF", Flag: true}, {Kind: "TB", Flag: true},
 		}
 		pid, pol := c.policy(ops)
+		// every call has a deadline: a runaway input is reported with its wall clock so far, and the
+		// family gives up after a few of them (the abandoned goroutines end with the process)
+		budget := 10 * time.Second
+		timeouts := 0
 		timeit := func(in []byte) {
+			if timeouts >= 3 {
+				return
+			}
 			t0 := time.Now()
-			out := safeSanitize(pol, in)
+			done := make(chan string, 1)
+			go func() { done <- safeSanitize(pol, in) }()
+			var out string
+			select {
+			case out = <-done:
+			case <-time.After(budget):
+				timeouts++
+				fmt.Fprintf(c.w, "timeonly %d %s TIMEOUT %d\n", pid, bmx.HexField(in), time.Since(t0).Microseconds())
+				c.stat("deadline_exceeded", fmt.Sprint(timeouts))
+				return
+			}
 			us := time.Since(t0).Microseconds()
 			op := "time"
 			if len(in) > 400 {
@@ -572,6 +593,56 @@ func init() {
 		}
 	}
 
+	// C17 "rules accumulate rather than replace one another": a policy with one more attribute
+	// rule keeps at least what the policy without it keeps (mono lines; the extra rule is global,
+	// on an element pattern, or on an element the history already names — a rule on a new name
+	// would shadow pattern rules, which is the documented precedence, not a loss)
+	monoFam := func(c *ctx) {
+		attrs := []string{"title", "class", "id", "lang", "size", "dir"}
+		resrc := []string{`^[a-z]+$`, `^[A-Z]+$`, `^[0-9]+$`, `^[a-z ]+$`, `^(x|y)$`}
+		for i := 0; i < c.n/4; i++ {
+			ops := bmx.RandPolicyOps(c.r)
+			// make overlaps likely: a global rule and some named elements to refine
+			ops = append(ops, &bmx.Op{Kind: "AE", Names: []string{"abbr", "span", "b"}},
+				&bmx.Op{Kind: "AA", Names: []string{bmx.Pick(c.r, attrs)}, Re: bmx.NewRE(bmx.Pick(c.r, resrc)), Scope: "G"})
+			var named []string
+			for _, o := range ops {
+				if o.Kind == "AE" {
+					named = append(named, o.Names...)
+				}
+			}
+			extra := &bmx.Op{Kind: "AA", Names: []string{bmx.Pick(c.r, attrs)}}
+			if c.r.Intn(3) > 0 {
+				extra.Re = bmx.NewRE(bmx.Pick(c.r, resrc))
+			}
+			switch c.r.Intn(3) {
+			case 0:
+				extra.Scope = "G"
+			case 1:
+				extra.Scope, extra.ScopeRe = "M", bmx.NewRE(bmx.Pick(c.r, []string{`^s`, `^my-`, `b`, `^[a-z]+$`}))
+			default:
+				extra.Scope, extra.ScopeEl = "E", []string{bmx.Pick(c.r, named)}
+			}
+			ops2 := append(append([]*bmx.Op{}, ops...), extra)
+			ida, pa := c.policy(ops)
+			idb, pb := c.policy(ops2)
+			g := bmx.NewDocGen(c.r, ops2)
+			for k := 0; k < 4; k++ {
+				in := g.Doc(1 + c.r.Intn(12))
+				fmt.Fprintf(c.w, "mono %d %d %s %s %s\n", ida, idb, bmx.HexField(in), safeSanitize(pa, in), safeSanitize(pb, in))
+			}
+			for _, v := range []string{"abc", "ABC", "42", "a b", "x"} {
+				in := []byte("<abbr " + extra.Names[0] + "=\"" + v + "\">t</abbr><span " + extra.Names[0] + "=\"" + v + "\">u</span>")
+				fmt.Fprintf(c.w, "mono %d %d %s %s %s\n", ida, idb, bmx.HexField(in), safeSanitize(pa, in), safeSanitize(pb, in))
+			}
+		}
+	}
+	permFam := families["perm"]
+	families["perm"] = func(c *ctx) {
+		permFam(c)
+		monoFam(c)
+	}
+
 	// directed material for individual properties
 	families["directed"] = func(c *ctx) {
 		switch c.prop {
@@ -676,11 +747,15 @@ type failingReader struct {
 	pos      int
 	failAt   int
 	withData bool
+	err      error
 }
 
 func (r *failingReader) Read(p []byte) (int, error) {
+	if r.err == nil {
+		r.err = errInjected
+	}
 	if r.pos >= r.failAt {
-		return 0, errInjected
+		return 0, r.err
 	}
 	n := r.failAt - r.pos
 	if n > len(p) {
@@ -692,7 +767,7 @@ func (r *failingReader) Read(p []byte) (int, error) {
 	copy(p, r.data[r.pos:r.pos+n])
 	r.pos += n
 	if r.withData && r.pos >= r.failAt {
-		return n, errInjected
+		return n, r.err
 	}
 	return n, nil
 }
